@@ -223,15 +223,8 @@ UNIT = Unit(
             assert((q1 - 1) * rr == q1 * rr - rr && (q2 - 1) * rr == q2 * rr - rr && (q1 + 1) * rr == q1 * rr + rr && (q2 + 1) * rr == q2 * rr + rr) by (nonlinear_arith);
         }
 """)]),
-        Fn("src/draw_target.rs", "RateLimiter", "allow", ret="res",
-           requires=ALLOW_REQ,
-           ensures=[
-               ("wf", "final(self).wf() && final(self).interval == old(self).interval"),
-               ("C05-step", "step(old(self).ls(), now.ns() as int, final(self).ls(), res, old(self).ival())"),
-               ("C05-burst", "res ==> burst_ok(final(self).ls(), now.ns() as int, old(self).ival(), 20)"),
-           ],
-           proofs=[(r"self\.capacity = Ord::min", "before", NL_ALLOW),
-                   (r"(?m)^\s*true\s*$", "before", NL_ALLOW_POST)]),
+        Fn(**dict(K.RL_ALLOW, proofs=[(r"self\.capacity = Ord::min", "before", NL_ALLOW),
+                                      (r"(?m)^\s*true\s*$", "before", NL_ALLOW_POST)])),
         Fn(**K.POS_ALLOW),
     ] + [Raw(TRACE)] + LEMMAS,
 )
